@@ -210,6 +210,15 @@ impl Prop for C18 {
                         t.pick_str(&["", "9", "9 // nine\n", " /* c */ 9"])
                     ),
                     2 => text.push_str(t.pick_str(&["// end", " // end", "/* end */", "//"])),
+                    4 => text = format!(
+                        // a one-line comment at the end of an actual that is not the last thing of the body: the rest of
+                        // the body must not end up inside the comment
+                        "`define TW(x,y) x y{}\n{}`TW({}){}",
+                        t.pick_str(&[";", " ;", "+1;", " z"]),
+                        t.pick_str(&["", "a ", "a/**/"]),
+                        t.pick_str(&["wire, w // second\n", "wire, w // second\n ", "wire // first\n, w", "wire // first\n , w // second\n", "p /* one */, q"]),
+                        t.pick_str(&["\n", " b\n", ""])
+                    ),
                     _ => {}
                 }
                 let d = || json!({"source": text});
